@@ -50,9 +50,31 @@ def initial_cases(tier, seed):
                     continue
                 cases.append({"kind": "plan", "dims": list(dims), "fwd": fwd, "r2c": r2c, "inplace": inplace,
                               "nt": nt, "bf": bf, "seed": seed})
+    # the wrapper's own copy loops are OpenMP work-sharing loops: the same plans with teams that do not divide the sizes
+    # (static partitions, disjoint writes: the team size is a configuration dimension here, not a schedule)
+    for dims in _dims_alphabet(tier):
+        for fwd, r2c, inplace in itertools.product((True, False), (False, True), (False, True)):
+            for nt, bf in ((1, True), (2, False), (3, True)):
+                for team in ((2, 3, 4, 5, 7, 16) if tier != "quick" else (2, 3, 7)):
+                    if tier == "quick" and (len(dims) == 3 or (team == 7 and nt == 2) or (team == 2 and nt == 3)):
+                        continue
+                    cases.append({"kind": "plan", "dims": list(dims), "fwd": fwd, "r2c": r2c, "inplace": inplace,
+                                  "nt": nt, "bf": bf, "team": team, "seed": seed})
     for rank in (1, 2, 3):
         cases.append({"kind": "vfftw", "rank": rank, "seed": seed})
     return cases
+
+
+_GOMP = []
+
+
+def _set_team(n):
+    """OpenMP team size of the runtime the wrapper library is linked against (the process default is 1, mc.boot)."""
+    if not _GOMP:
+        _GOMP.append(ctypes.CDLL("libgomp.so.1"))
+        _GOMP[0].omp_get_max_threads.restype = ctypes.c_int
+    _GOMP[0].omp_set_num_threads(ctypes.c_int(int(n)))
+    return _GOMP[0].omp_get_max_threads()
 
 
 def case_label(c):
@@ -92,7 +114,7 @@ def run_plan(case):
     L.vfftw_reset_errors()
     dims = tuple(case["dims"])
     fwd, r2c, inplace, nt, bf = case["fwd"], case["r2c"], case["inplace"], case["nt"], case["bf"]
-    ck = "fwd=%s;r2c=%s;inplace=%s;bf=%s;nt=%d;rank=%d;lastdim=%s" % (fwd, r2c, inplace, bf, nt, len(dims), "odd" if dims[-1] % 2 else "even")
+    ck = "fwd=%s;r2c=%s;inplace=%s;bf=%s;nt=%d;rank=%d;lastdim=%s%s" % (fwd, r2c, inplace, bf, nt, len(dims), "odd" if dims[-1] % 2 else "even", ";team=%d" % case["team"] if case.get("team", 1) != 1 else "")
     full = ck + ";dims=%s" % (dims,)
     fails = []
     w = FFTWrapper(dims, ntransform=nt, fwd=fwd, r2c=r2c, inplace=inplace, batch_first=bf)
@@ -362,7 +384,13 @@ def run_vfftw(case):
 
 def run_case(case):
     if case["kind"] == "plan":
-        return run_plan(case)
+        team = case.get("team", 1)
+        try:
+            if _set_team(team) != team:
+                return {"fail": [{"key": "harness-team-size", "msg": "could not set the OpenMP team size to %d" % team}], "evals": 0}
+            return run_plan(case)
+        finally:
+            _set_team(1)
     return run_vfftw(case)
 
 
